@@ -5,7 +5,7 @@ import common as C
 
 ID = "C10"
 COQ_TARGETS = ["Exec/Collide.vo", "Gen/Consts.vo", "Properties/C10.vo"]
-THEOREMS = ["C10_all_mode_eq_brute", "C10_first_mode_sub_nonempty", "C10_nocheck_empty", "C10_collides_iff_exists", "C10_min_distance_sym"]
+THEOREMS = ["C10_all_mode_eq_brute", "C10_first_mode_sub_nonempty", "C10_nocheck_empty", "C10_collides_iff_exists", "C10_min_distance_sym", "C10_prefilter_design"]
 LEVEL_TEXT = ("Coq theorems for every body configuration (tool/base presence, any number of environment objects), every safety table and "
               "every behaviour of the geometry oracles and of find_map_any: all-collisions mode lists exactly the relevant, non-exempt pairs "
               "the brute-force check flags; first-collision mode returns a subset that is empty iff that set is empty (for EVERY scheduling "
